@@ -38,6 +38,7 @@ func (c03) Plan(tier string, seed int64) []mon.Workload {
 	return []mon.Workload{{Name: "programs", N: n}, {Name: "loop-scope", N: int64(len(c03Loops) * len(c03Bodies) * len(c03Vars)), Exhaustive: true},
 		{Name: "branch-table", N: 8 * 16 * 2 * 3, Exhaustive: true},
 		{Name: "switch-chains", N: c03SwitchN(), Exhaustive: true},
+		{Name: "loop-counts", N: int64(len(c03CountNs) * len(c03CountLoops)), Exhaustive: true},
 		{Name: "map-iteration", N: n / 10},
 		{Name: "many-locals", N: manyLocalsN(), Exhaustive: true},
 		{Name: "stale-lookup", N: staleLookupN(), Exhaustive: true},
@@ -131,6 +132,69 @@ var c03SwSets = [][]string{
 }
 var c03SwSubjects = []string{"1", "2", "2.0", "4", "4.0", "3.5", "true", "false", "nil", "\"a\"", "\"2\"", "0", "0.0", "9", "9.0", "\"\"", "77", "1.0", "6 / 2", "8 / 2.0"}
 var c03SwForms = []string{"S == L", "L == S", "S == L || false", "(S == L)"}
+
+// loop-counts (exhaustive, v1 and v2): every loop form run N times for N on
+// both sides of every power of two up to 4096 - three-clause loops, for-in
+// over a list literal / a string / a list built in an earlier loop, nested
+// loops whose product is N, a continue and a break in the last iterations:
+// the body runs exactly N times and the variables end as specified.
+var c03CountNs = []int{0, 1, 2, 7, 8, 9, 15, 16, 17, 31, 32, 33, 63, 64, 65, 127, 128, 129, 255, 256, 257, 1023, 1024, 1025, 4095, 4096, 4097}
+var c03CountLoops = []string{"three-clause", "for-in-list", "for-in-string", "for-in-built", "nested", "continue-late", "break-late", "while-style"}
+
+func c03LoopCount(i int64) progCase {
+	form := c03CountLoops[int(i)%len(c03CountLoops)]
+	n := c03CountNs[int(i)/len(c03CountLoops)]
+	var sb strings.Builder
+	sb.WriteString("s = 0\nlast = nil\n")
+	list := func() string {
+		var b strings.Builder
+		b.WriteString("[")
+		for j := 0; j < n; j++ {
+			if j > 0 {
+				b.WriteString(", ")
+			}
+			fmt.Fprint(&b, j)
+		}
+		return b.String() + "]"
+	}
+	switch form {
+	case "three-clause":
+		fmt.Fprintf(&sb, "for i = 0; i < %d; i = i + 1 {\n  s = s + 1\n  last = i\n}\n", n)
+	case "for-in-list":
+		fmt.Fprintf(&sb, "for e in %s {\n  s = s + 1\n  last = e\n}\n", list())
+	case "for-in-string":
+		fmt.Fprintf(&sb, "for ch in \"%s\" {\n  s = s + 1\n  last = ch\n}\n", strings.Repeat("abcdefg", n/7+1)[:n])
+	case "for-in-built":
+		fmt.Fprintf(&sb, "l = %s\nfor j = 0; j < len(l); j = j + 1 {\n  l[j] = l[j] * 2\n}\nfor e in l {\n  s = s + 1\n  last = e\n}\n", list())
+	case "nested":
+		a := 1
+		for a*a < n {
+			a++
+		}
+		b := 0
+		if a > 0 && n > 0 {
+			b = n / a
+		}
+		fmt.Fprintf(&sb, "for i = 0; i < %d; i = i + 1 {\n  for j = 0; j < %d; j = j + 1 {\n    s = s + 1\n    last = [i, j]\n  }\n}\nfor k = 0; k < %d; k = k + 1 {\n  s = s + 1\n}\n", a, b, n-a*b)
+	case "continue-late":
+		fmt.Fprintf(&sb, "for i = 0; i < %d; i = i + 1 {\n  if i == %d {\n    continue\n  }\n  s = s + 1\n  last = i\n}\n", n+1, n-1)
+	case "break-late":
+		fmt.Fprintf(&sb, "for i = 0; ; i = i + 1 {\n  if i == %d {\n    break\n  }\n  s = s + 1\n  last = i\n}\n", n)
+	case "while-style":
+		fmt.Fprintf(&sb, "i = 0\nfor ; i < %d; {\n  i = i + 1\n  s = s + 1\n  last = i\n}\n", n)
+	}
+	sb.WriteString("p(s, last)\n")
+	o := drive.Parse("loop-counts", sb.String())
+	if o.Err != nil {
+		panic("c03: loop-counts program does not parse: " + firstN(sb.String(), 5) + ": " + o.Err.Error())
+	}
+	l, err := gt.FromStmts(o.Stmts)
+	if err != nil {
+		panic(err)
+	}
+	st := gt.CloneStmts(l)
+	return progCase{Stmts: st, Src: gt.Print(st, nil), Points: []*ref.Point{ref.NewPoint("m", nil, map[string]any{"f1": int64(1)}, time.Unix(1700000000, 0))}}
+}
 
 func c03SwitchN() int64 {
 	return int64(len(c03SwLens) * len(c03SwSets) * len(c03SwSubjects) * len(c03SwForms) * 4)
@@ -385,6 +449,12 @@ func (k c03) Run(c *mon.Ctx, workload string, i int64) {
 	}
 	if workload == "branch-table" {
 		runV1Compare(c, c03BranchTable(i), "c03.p")
+		return
+	}
+	if workload == "loop-counts" {
+		pc := c03LoopCount(i)
+		runV1Compare(c, pc, "c03.p")
+		runV2Text(c, "loop-counts", pc.Src)
 		return
 	}
 	if workload == "switch-chains" {
